@@ -64,16 +64,20 @@ fn contract_options(tier: Tier) -> Vec<Vec<ContractShape>> {
 
 fn encodings(tier: Tier) -> Vec<Encoding> {
     let mut v = vec![
-        Encoding::Json { read_group_size: None },
-        Encoding::Json { read_group_size: Some(1) },
+        Encoding::Json { write_group_size: None, read_group_size: None },
+        Encoding::Json { write_group_size: Some(1), read_group_size: Some(1) },
+        Encoding::Json { write_group_size: Some(2), read_group_size: None },
+        Encoding::Json { write_group_size: Some(3), read_group_size: None },
         Encoding::Parquet { group_size: Some(1) },
         Encoding::Parquet { group_size: Some(2) },
         Encoding::Parquet { group_size: None },
     ];
     if tier == Tier::Thorough {
         v.push(Encoding::Parquet { group_size: Some(3) });
-        v.push(Encoding::Json { read_group_size: Some(2) });
-        v.push(Encoding::Json { read_group_size: Some(3) });
+        v.push(Encoding::Json { write_group_size: None, read_group_size: Some(1) });
+        v.push(Encoding::Json { write_group_size: None, read_group_size: Some(2) });
+        v.push(Encoding::Json { write_group_size: Some(1), read_group_size: None });
+        v.push(Encoding::Json { write_group_size: Some(2), read_group_size: Some(3) });
         v.push(Encoding::Parquet { group_size: Some(4) });
     }
     v
